@@ -34,7 +34,19 @@ type truthVal struct {
 	Kind  string // class for signatures
 }
 
+// named types (enums, ids, database column types): the kind decides, not the type name
+type (
+	vNamedInt   int
+	vNamedU8    uint8
+	vNamedFloat float64
+	vNamedBool  bool
+	vNamedStr   string
+)
+
 var truthValues = []truthVal{
+	{"named_int0", vNamedInt(0), -1, "named-int"}, {"named_int1", vNamedInt(3), 1, "named-int"}, {"named_u8_0", vNamedU8(0), -1, "named-uint8"},
+	{"named_float0", vNamedFloat(0), -1, "named-float"}, {"named_false", vNamedBool(false), -1, "named-bool"}, {"named_true", vNamedBool(true), 1, "named-bool"},
+	{"named_empty", vNamedStr(""), -1, "named-string"}, {"named_str", vNamedStr("x"), 1, "named-string"},
 	{"false", false, -1, "bool"}, {"true", true, 1, "bool"},
 	{"int0", int(0), -1, "int"}, {"int1", int(1), 1, "int"}, {"intneg", int(-3), 1, "int"},
 	{"int8_0", int8(0), -1, "int8"}, {"int8_1", int8(1), 1, "int8"},
